@@ -43,6 +43,7 @@ package snowflake_proxy
 // A broker-supplied relay URL reaches the peer connection only if its hostname is inside the proxy's own pattern and
 // its scheme is wss (unless non-TLS relays were explicitly allowed); the handler gets that very URL.
 //@ ghost var answerFailed bool
+//@ ghost var claimTaken bool
 //@ func (sf *SnowflakeProxy) runSession(sid string)
 //@   props C16, C06
 //@   requires sf != nil
@@ -56,10 +57,13 @@ package snowflake_proxy
 //   Once the answer has been delivered the remote client can open its data channel at any moment, and the
 //   OnDataChannel callback then starts a handler that returns the slot. From that point runSession may return the slot
 //   itself only after it has atomically excluded the callback (handoverOpen: the callback may still take the slot).
+//   That holds from the moment the answer is *sent*: a POST to /answer that ends in an error (response lost, body
+//   unreadable) does not prove that the broker did not pass the answer on.
 //@   at entry ghost handoverOpen = false
-//@   after call sendAnswer ghost handoverOpen = ret0 == nil
+//@   at call sendAnswer ghost handoverOpen = true
 //   (the hand-over is closed by winning the claim the callback also needs: sync.Once runs exactly one of the two)
-//@   after call Do ghost handoverOpen = false if timedOut
+//@   at call Do ghost claimTaken = oncedone(&claim)
+//@   after call Do ghost handoverOpen = handoverOpen && claimTaken
 //@   at call ret assert {no-release-while-the-data-channel-handler-may-still-take-the-slot} !handoverOpen
 //   A failed sendAnswer does not prove that the client never got the answer: the peer connection (and with it the
 //   OnDataChannel callback that would take the slot) is closed before the slot is given back.
@@ -70,7 +74,8 @@ package snowflake_proxy
 //@   at call NewNameMatcher assert {own-pattern} arg0 == sf.RelayDomainNamePattern
 //@   at call makePeerConnectionFromOffer assert {relay-url-gate} relayURL == "" || (hostOK && (sf.AllowNonTLSRelay || parsedRelayURL.Scheme == "wss"))
 //@   at call makePeerConnectionFromOffer assert {handler-gets-the-checked-url} dataChannelAdaptor.RelayURL == relayURL && dataChannelAdaptor.sf == sf
-//@   ensures {slot-released-once-or-handed-to-the-data-channel-handler} slot == 0 || (slot == 1 && atSelect && (recvs(dataChan) == recvs0 + 1 || (oncedone(&claim) && handoverOpen)))
+//@   ensures {slot-released-once-or-handed-to-the-data-channel-handler} slot == 0 || (slot == 1 && ((atSelect && recvs(dataChan) == recvs0 + 1) || (oncedone(&claim) && handoverOpen)))
+//@   ensures {peer-connection-of-a-failed-answer-is-closed-whoever-has-the-slot} answerFailed ==> calls(Close) == 1
 //
 //@ func (sf *SnowflakeProxy) datachannelHandler(conn *webRTCConn, remoteAddr net.Addr, relayURL string)
 //@   props C16, C06
